@@ -89,6 +89,19 @@ def scan_cases(run, rng, cases):
             else:
                 run.violation(info, tag="scan")
             continue
+        if chunks is not None:
+            # "the same for in-memory and chunked inputs": EVERY position, those with a missing label included
+            try:
+                with warnings.catch_warnings():
+                    warnings.simplefilter("ignore")
+                    eager = np.asarray(flox.groupby_scan(v, lab, func=func), dtype=float)
+            except Exception:  # noqa: BLE001
+                eager = None
+            if eager is not None and not np.allclose(np.asarray(got, dtype=float), eager, equal_nan=True):
+                run.violation({"property": "C10", "kind": "chunked grouped scan differs from the in-memory scan of the same data",
+                               "func": func, "vals": vals, "labels": labels, "chunks": chunks, "dtype": dtype,
+                               "chunked": [I.fnum(x) for x in np.asarray(got, dtype=float)], "in_memory": [I.fnum(x) for x in eager]}, tag="scan")
+                continue
         if dtype == "float64" and "nan" not in labels and not F.classify_nd("C10", {"func": func, "labels": labels, "vals": vals, "chunks": chunks, "probe": True}):
             present = sorted(set(labels))
             codes = [present.index(x) for x in labels]
@@ -127,6 +140,15 @@ def gen(rng, n, exhaustive_upto):
             vals = [rng.randint(-3, 3) for _ in range(m)]
         chunks = None if rng.random() < 0.25 else list(G.random_composition(rng, m))
         cases.append((func, vals, labels, chunks, dtype))
+    # narrow integers whose running / per-block group totals leave the input width (int8: 127, uint8: 255, int16: 32767)
+    for _ in range(max(6, n // 60)):
+        dtype = rng.choice(["bool", "int8", "uint8", "int16"])
+        m = rng.randint(300, 700)
+        ng = rng.randint(1, 3)
+        labels = [i % ng for i in range(m)] if rng.random() < 0.5 else [rng.randrange(ng) for _ in range(m)]
+        hi = {"bool": 1, "int8": 100, "uint8": 200, "int16": 30000}[dtype]
+        vals = [rng.random() < 0.9 for _ in range(m)] if dtype == "bool" else [rng.choice([hi, hi // 2, 1]) for _ in range(m)]
+        cases.append(("nancumsum", vals, labels, list(G.random_composition(rng, m, rng.randint(2, 5))), dtype))
     return cases
 
 
